@@ -103,6 +103,10 @@ func VerifAttribution() {
 	twoExtractors := verifrt.Param("extractors") == 2
 	nLetters := verifrt.Param("letters")
 	files := []string{"f.db"}
+	if verifrt.Param("files") == 2 {
+		// the same packages may be listed in two files (same name and version, different location)
+		files = append(files, "g.db")
+	}
 	// history: each non-empty layer may be preceded by an empty history entry
 	img := &fakeimg.Image{}
 	var chainIsEmpty []bool   // per chain layer
